@@ -30,7 +30,9 @@ RULE = (
     "array border),int_far(beyond N/2),sub,sub_far,half} x shape class{even/odd, square/non-square, 12..48} with dtype and image "
     "family (band-limited complex-normal / band-limited Gaussian-envelope random-phase / arbitrary noise image rolled by an "
     "integer) rotated over the repetitions; every numpy case also exercises return_shifted_image, fft_input, fft_output and "
-    "max_shift; plus call-site cases (tomography stack alignment, direct-ptychography reference/pairwise shifts). "
+    "max_shift (radius >= |s|+2.5 px, and a radius within 0..1 px of the admitted shift); buffer-reuse histories for both backends (the same "
+    "array/tensor storage refilled in place between 7..10 calls: reference only, moving only, both, reference := moving, swapped roles, "
+    "interleaved calls on other tensors of the same / another shape; every call judged against its own truth); plus call-site cases (tomography stack alignment, direct-ptychography reference/pairwise shifts). "
     "non-trivial = applied shift != 0; distinct = (kind, backend, factor, shift class, shape class, dtype, family)"
 )
 ASSUMPTIONS = [
@@ -42,7 +44,10 @@ ASSUMPTIONS = [
     "torch sub-pixel cases with up<=2 use the Gaussian-envelope family with bandwidth <= 0.7 only (parabolic error <= 0.1 px + 0.25 px half-pixel rounding stays well below the 0.5 px claim)",
     "swap antisymmetry is judged at working precision for numpy (exact mirror symmetry of the algorithm) except for exact half-integer shifts "
     "(the two tied coarse peaks are broken by argmax order) and within the accuracy bound for torch (its upsampled patch is not symmetric for even factors)",
-    "max_shift is generated >= |s| + 2.5 px so the true peak and its parabolic neighbours are inside the search disc",
+    "max_shift is generated >= |s| + 2.5 px so the true peak and its parabolic neighbours are inside the search disc (usual bounds), and additionally with the radius "
+    "0.02..1 px beyond the farthest of the four integer lags around the true shift: there the library's zero-filled excluded lags bias the coarse parabolic estimate "
+    "(measured up to 0.49 px at up=1, integer shifts included), so those cases are judged 'finite and within 1/up' for up>1 (measured <= 0.09 px at up=2 ... 0.003 px at up=64) "
+    "and 'finite and within 1.5 px' for up=1",
     "aligned image vs reference: rigorous Parseval bound ||T_r im - T_s im||_2 <= pi*bw*(|d_r|+|d_c|) ||im||_2 with d = r - s",
 ]
 BUDGET = {"quick": {"soft_s": 100}, "thorough": {"soft_s": 540}}
@@ -60,6 +65,10 @@ REQUIRED_COUNTERS = [
     "eval:aligned_not_translation_by_returned_shift_int_f64",
     "eval:aligned_not_reference_sub_up8",
     "eval:fft_variant_disagrees_int_f64",
+    "eval:shift_error_near_search_radius_sub_up1",
+    "eval:shift_error_near_search_radius_sub_up8",
+    "eval:history_shift_error_int_f32",
+    "eval:history_shift_error_sub_up8",
 ]
 # the call-site sub-monitors (tomography / direct-ptychography helpers, partly private names) are additional observability:
 # if a helper disappears it is listed under hooks_missing in the evidence and the verdict rests on the estimators themselves
@@ -92,6 +101,14 @@ def plan(tier, seed):
             else:
                 dt = ["float32", "float64"][(k // 2 + rep) % 2]
             specs.append({"kind": "est", "backend": be, "up": up, "sclass": sc, "shape": shp, "dtype": dt, "family": fam})
+    hreps = 2 if tier == "quick" else 60
+    k = 0
+    for rep in range(hreps):
+        for be, up, sc in itertools.product(BACKENDS, UPS, ["int", "sub"]):
+            k += 1
+            fam = "env" if (be == "torch" and up <= 2 and sc == "sub") else ["gauss", "env"][(k + rep) % 2]
+            dt = (["float64", "float32"] if be == "numpy" else ["float32", "float64"])[(k // 2 + rep) % 2]
+            specs.append({"kind": "history", "backend": be, "up": up, "sclass": sc, "shape": SHAPES[(k + rep) % len(SHAPES)], "dtype": dt, "family": fam})
     ncs = 36 if tier == "quick" else 720
     for r in range(ncs):
         specs.append({"kind": "tomo", "sclass": ["int", "sub"][r % 2], "shape": SHAPES[(r // 2) % len(SHAPES)]})
@@ -283,12 +300,13 @@ class J:
     def check(self, base, cond, detail, io):
         return self.ctx.check(cond, base, detail, check=base, io=io, **self.common)
 
-    def shift(self, r, s, shape, io, base="shift_error"):
+    def shift(self, r, s, shape, io, base="shift_error", tol=None, k=None):
         r = np.asarray(r, dtype=np.float64).ravel()
-        if not self.check("shift_not_finite_pair", r.shape == (2,) and bool(np.all(np.isfinite(r))), lambda: "returned %r" % (r,), io):
+        if not self.check("shift_not_finite_pair", r.shape == (2,) and bool(np.all(np.isfinite(r))), lambda: "returned %r (applied %s, %s)" % (r, np.asarray(s).tolist(), io), io):
             return None
         d = T.wrap(r - s, shape)
-        tol = self.tol
+        tol = self.tol if tol is None else tol
+        k = self.kind if k is None else k
 
         def detail():
             hint = ""
@@ -298,7 +316,7 @@ class J:
                 hint = " [axes swapped]"
             return "shape=%s applied s=%s returned r=%s wrap(r-s)=%s%s" % (tuple(shape), np.asarray(s).tolist(), r.tolist(), d.tolist(), hint)
 
-        self.close(base, float(np.max(np.abs(d))), tol, detail, io, k=self.kind)
+        self.close(base, float(np.max(np.abs(d))), tol, detail, io, k=k)
         return d
 
 
@@ -367,6 +385,25 @@ def _run_numpy(spec, idx, ctx, rng, shape, s, im, ref, bw):
     j.shift(r6, s, shape, "max_shift")
     r7 = np.asarray(ccs(b, b, upsample_factor=up, max_shift=float(rng.uniform(2.5, 8.0))), dtype=np.float64)
     j.close("identical_nonzero", _absmax(r7), j.tol0, lambda: "identical images shape=%s max_shift -> %s" % (shape, r7.tolist()), "max_shift")
+
+    # max_shift whose radius passes within 0..1 px of the (admitted) true shift: the four integer lags around the true
+    # shift are inside the disc, parabolic neighbours of the coarse peak may be excluded.  The library zero-fills excluded
+    # lags, which biases the *coarse* parabolic estimate by < 0.5 px (measured 0.49 px at up=1, also for integer shifts);
+    # the DFT-upsampled refinement (radius 1.5 px, unmasked correlation) absorbs it: measured <= 0.09 (up 2) ... 0.003 (up 64).
+    # Judged: finite result, 1/up for up > 1 (all shift classes), gross-error bound 1.5 px for up = 1.
+    corners = [float(np.hypot(p, q)) for p in {np.floor(sw[0]), np.ceil(sw[0])} for q in {np.floor(sw[1]), np.ceil(sw[1])}]
+    ms_e = max(corners) + float(rng.uniform(0.02, 1.0))
+    tol_e = 1.5 if up <= 1 else 1.0 / up
+    r8 = np.asarray(ccs(a, b, upsample_factor=up, max_shift=ms_e), dtype=np.float64)
+    j.shift(r8, s, shape, "max_shift_edge", base="shift_error_near_search_radius", tol=tol_e, k="sub")
+    r9, al9 = ccs(Fa, Fb, upsample_factor=up, max_shift=ms_e, fft_input=True, return_shifted_image=True)
+    r9 = np.asarray(r9, dtype=np.float64)
+    d9 = j.shift(r9, s, shape, "max_shift_edge+fft_input+image", base="shift_error_near_search_radius", tol=tol_e, k="sub")
+    al9 = np.asarray(al9)
+    if d9 is not None and j.check("aligned_bad_type", al9.shape == tuple(shape) and not np.iscomplexobj(al9) and bool(np.all(np.isfinite(al9))), lambda: "aligned image (max_shift near the shift) shape=%s dtype=%s finite=%s" % (al9.shape, al9.dtype, bool(np.all(np.isfinite(al9)))), "max_shift_edge"):
+        j.close("aligned_not_translation_by_returned_shift", rel_l2(al9, T.translate(b64, r9)), itol, lambda: "shape=%s returned r=%s (max_shift=%.3f): aligned image is not im translated by +r" % (shape, r9.tolist(), ms_e), "max_shift_edge")
+    r10 = np.asarray(ccs(b, b, upsample_factor=up, max_shift=float(rng.uniform(0.3, 1.4))), dtype=np.float64)  # only the zero lag (and at most its 4 neighbours) admitted
+    j.close("identical_nonzero", _absmax(r10), j.tol0, lambda: "identical images shape=%s, max_shift ~ 1 -> %s" % (shape, r10.tolist()), "max_shift_edge")
 
     if not (np.array_equal(a, a_keep) and np.array_equal(b, b_keep)):
         ctx.count("observed:estimator_modified_its_inputs")  # not part of the property: recorded, not judged
@@ -512,10 +549,119 @@ def _run_dptycho(spec, idx, ctx):
     ctx.observe(shape=list(shape), applied=[x.tolist() for x in a], returned=shn.tolist(), worst_error=worst, bandwidth=bw)
 
 
+# ------------------------------------------------------------------------------------------------
+# buffer-reuse histories: the same array / tensor objects (same storage) are refilled in place between calls
+
+
+def _run_history(spec, idx, ctx):
+    """Several estimator calls in one process on preallocated buffers whose *contents* change in place between calls
+    (reference only, moving image only, both, reference := moving image), interleaved with calls on other tensors of the
+    same and of a different shape.  Every call is judged against its own ground truth: the result of a call may depend
+    on the images passed to it only, not on what the same storage (or an earlier call) held before."""
+    iu = ctx.state["iu"]
+    torch = ctx.state["torch"]
+    rng = ctx.rng(idx)
+    backend, up, dtype, kind = spec["backend"], spec["up"], spec["dtype"], spec["sclass"]
+    shape = gen_shape(rng, spec["shape"])
+    shape2 = gen_shape(rng, SHAPES[(SHAPES.index(spec["shape"]) + 1 + int(rng.integers(len(SHAPES) - 1))) % len(SHAPES)])
+    if shape2 == shape:
+        shape2 = (shape[0] + 2, shape[1] + 3)
+    j = J(ctx, backend, dtype, up, kind, family=spec["family"], history=True)
+    bw_max = 0.7 if half_pixel_rounding(backend, up, kind) else 0.9
+    sclass = {"int": ["int", "int_edge", "int_far"], "sub": ["sub", "sub_far"]}[kind]
+
+    def new_shift(shp=shape):
+        return gen_shift(rng, sclass[int(rng.integers(len(sclass)))], shp)
+
+    def new_image(shp=shape):
+        return T.band_limited_image(rng, shp, float(rng.uniform(0.5, bw_max)), spec["family"], float(rng.choice([0.0, 1.0, 3.0])))
+
+    if backend == "torch":
+        tdt = getattr(torch, dtype)
+        ref_buf, mov_buf = torch.empty(shape, dtype=tdt), torch.empty(shape, dtype=tdt)
+
+        def fill(buf, arr):
+            buf.copy_(torch.from_numpy(np.ascontiguousarray(arr)).to(buf.dtype))
+
+        def fresh(arr):
+            return torch.tensor(np.asarray(arr, dtype=np.float64), dtype=tdt)
+
+        def est(x, y):
+            return iu.cross_correlation_shift_torch(x, y, upsample_factor=up).detach().cpu().numpy().astype(np.float64)
+
+        ident = (ref_buf.data_ptr(), mov_buf.data_ptr())
+    else:
+        ref_buf, mov_buf = np.empty(shape, dtype=dtype), np.empty(shape, dtype=dtype)
+
+        def fill(buf, arr):
+            buf[...] = arr
+
+        def fresh(arr):
+            return np.array(arr, dtype=dtype)
+
+        def est(x, y):
+            return np.asarray(iu.cross_correlation_shift(x, y, upsample_factor=up), dtype=np.float64)
+
+        ident = (ref_buf.ctypes.data, mov_buf.ctypes.data)
+
+    cur_mov = new_image()
+    cur_s = new_shift()
+    cur_ref = T.translate(cur_mov, cur_s)
+    fill(mov_buf, cur_mov)
+    fill(ref_buf, cur_ref)
+    j.shift(est(ref_buf, mov_buf), cur_s, shape, "history:first", base="history_shift_error")
+    modes = ["ref_only", "mov_only", "both", "identical", "other_shape", "same_shape_fresh", "swapped_roles", "ref_only", "identical"]
+    order = [modes[i] for i in rng.permutation(len(modes))][: int(rng.integers(6, len(modes) + 1))]
+    done = []
+    for mode in order:
+        done.append(mode)
+        if mode == "ref_only":  # new reference written into the same storage, moving image untouched
+            cur_s = new_shift()
+            cur_ref = T.translate(cur_mov, cur_s)
+            fill(ref_buf, cur_ref)
+        elif mode == "mov_only":  # new moving image written into the same storage, reference untouched
+            cur_s = new_shift()
+            cur_mov = T.translate(cur_ref, -cur_s)
+            fill(mov_buf, cur_mov)
+        elif mode == "both":
+            cur_mov = new_image()
+            cur_s = new_shift()
+            cur_ref = T.translate(cur_mov, cur_s)
+            fill(mov_buf, cur_mov)
+            fill(ref_buf, cur_ref)
+        elif mode == "identical":  # reference := moving image (in place): identical images must give zero
+            cur_ref = cur_mov.copy()
+            cur_s = np.zeros(2)
+            if backend == "torch":
+                ref_buf.copy_(mov_buf)
+            else:
+                ref_buf[...] = mov_buf
+            r0 = est(ref_buf, mov_buf)
+            j.close("identical_nonzero", _absmax(r0), j.tol0, lambda: "history %s: reference buffer refilled in place with the moving image -> %s" % (done, r0.tolist()), "history:" + mode)
+            continue
+        elif mode in ("other_shape", "same_shape_fresh"):  # unrelated calls in between, then the unchanged buffers again
+            shp = shape2 if mode == "other_shape" else shape
+            for _ in range(int(rng.integers(1, 3))):
+                im2 = new_image(shp)
+                s2 = new_shift(shp)
+                j.shift(est(fresh(T.translate(im2, s2)), fresh(im2)), s2, shp, "history:" + mode + ":interleaved", base="history_shift_error")
+        elif mode == "swapped_roles":
+            j.shift(est(mov_buf, ref_buf), -cur_s, shape, "history:" + mode, base="history_shift_error")
+            continue
+        j.shift(est(ref_buf, mov_buf), cur_s, shape, "history:" + mode, base="history_shift_error")
+    now = (ref_buf.data_ptr(), mov_buf.data_ptr()) if backend == "torch" else (ref_buf.ctypes.data, mov_buf.ctypes.data)
+    if now != ident:
+        raise __import__("vf.core", fromlist=["HarnessError"]).HarnessError("history buffers were reallocated: the workload did not reuse storage")
+    ctx.nontrivial(("history", backend, up, kind, spec["shape"], dtype, spec["family"]), True)
+    ctx.observe(shape=list(shape), other_shape=list(shape2), steps=done, last_applied=cur_s.tolist())
+
+
 def run_case(spec, idx, ctx):
     with np.errstate(all="ignore"):
         if spec["kind"] == "est":
             _run_est(spec, idx, ctx)
+        elif spec["kind"] == "history":
+            _run_history(spec, idx, ctx)
         elif spec["kind"] == "tomo":
             _run_tomo(spec, idx, ctx)
         else:
